@@ -735,7 +735,7 @@ func sftpGoroutines() []string {
 		for i := 0; i+1 < len(lines); i++ {
 			if strings.HasPrefix(lines[i], "github.com/pkg/sftp.") || strings.HasPrefix(lines[i], "created by github.com/pkg/sftp.") {
 				loc := strings.TrimSpace(lines[i+1])
-				if strings.Contains(loc, "/repo/") && !strings.Contains(loc, "_test.go") {
+				if strings.Contains(loc, ".go:") && !strings.Contains(loc, "_test.go") {
 					pkgFrame = true
 				}
 			}
